@@ -5,4 +5,5 @@ META = {
             'later identical call returns; the oracle replays the same call without the history.',
     'note': 'Thread interleavings are NOT covered (no engine here explores Python thread schedules); the property is claimed for sequential histories and the non-mutation '
             'invariant only. Known findings F8 (compile cache key / mutated cached model), F11, F29 identified by signature.',
+    'technique': 'solver-chosen call selectors (CrossHair/z3 forks over every history within the bound), each history executed natively in its own interpreter against a fresh-interpreter oracle; symbolic execution of parses for the non-mutation invariant',
 }
